@@ -14,7 +14,7 @@ TAG_PROP = {
     "C05w_malformed": "C05", "C06l_lost": "C06", "confluence": None,   # confluence: C05 in same-file slices, else C06
 }
 
-SAMEFILE = ["Alpha", "Al1", "Al<i32>", "AlphaBeta", "Beta", "alpha2"]
+SAMEFILE = ["Alpha", "Al1", "Al<i32>", "Al2", "AlphaBeta", "Beta", "alpha2"]
 
 
 def slice_def(u, name, tier):
